@@ -22,7 +22,7 @@ pub static ALL: &[Finding] = &[
 static OPEN: OnceLock<Vec<&'static Finding>> = OnceLock::new();
 
 pub fn load() -> Result<(), String> {
-    let path = format!("{}/known_findings.json", crate::core::VERIF_DIR);
+    let path = format!("{}/known_findings.json", crate::core::verif_dir());
     let mut open: Vec<&'static Finding> = vec![];
     if let Ok(text) = std::fs::read_to_string(&path) {
         let v: serde_json::Value = serde_json::from_str(&text).map_err(|e| format!("{}: {}", path, e))?;
